@@ -1,5 +1,5 @@
 """geometry of parsed SVG elements for the oracles: coordinates as Fractions in user units"""
-import math
+import math, re
 from fractions import Fraction as F
 import svgtree
 
@@ -23,6 +23,30 @@ def translate_elem(e, dx, dy):
         attrs.append((a, v))
     kids = tuple(k if isinstance(k, str) else translate_elem(k, dx, dy) for k in e.kids if not (isinstance(k, str) and not k.strip() and e.tag != 'text'))
     return (e.tag, tuple(attrs), kids)
+
+QRE = re.compile(r'-?\d+(?:/\d+)?(?:\.\d+)?')
+COORD_ATTRS = ('x', 'x1', 'x2', 'cx', 'y', 'y1', 'y2', 'cy', 'points', 'd', 'width', 'height', 'r', 'rx')
+
+def near_elem(a, b, tol):
+    """two canonical dumps (translate_elem) are the same element up to tol in every number of a geometric attribute;
+    everything else (tags, attribute names and order, classes, text, number of numbers) exactly"""
+    if a[0] != b[0] or len(a[1]) != len(b[1]) or len(a[2]) != len(b[2]): return False
+    for (ka, va), (kb, vb) in zip(a[1], b[1]):
+        if ka != kb: return False
+        if va == vb: continue
+        if ka not in COORD_ATTRS: return False
+        if QRE.sub('#', va) != QRE.sub('#', vb): return False
+        na, nb = nums_q(va), nums_q(vb)
+        if len(na) != len(nb) or any(abs(x - y) > tol for x, y in zip(na, nb)): return False
+    for x, y in zip(a[2], b[2]):
+        if isinstance(x, str) or isinstance(y, str):
+            if x != y: return False
+        elif not near_elem(x, y, tol): return False
+    return True
+
+def nums_q(s):
+    """numbers of a canonical dump: Fractions are printed as p/q"""
+    return [F(m.group(0)) for m in QRE.finditer(s)]
 
 def arc_bbox(x1, y1, r, large, sweep, x2, y2):
     """bounding box of a circular SVG arc (floats)"""
